@@ -4,6 +4,7 @@ package c31
 
 import (
 	"verif/harness/core"
+	"verif/harness/props/c43"
 	"verif/harness/props/tokenworld"
 )
 
@@ -11,6 +12,23 @@ func init() { core.Register("C31", "model_checking", run) }
 
 func run(c *core.C) {
 	tokenworld.Run(c, tokenworld.Arm{C31: true})
+	if c.Replay == "" {
+		// "... including packet-forward refund moves": the packet-forward world (C43's scenario; its oracles include the
+		// tracked total escrow of every chain on quiescent states and conservation in every state) is explored under
+		// this check's id as well
+		st, tr, rp := c.Get("states"), c.Get("transitions"), c.Get("traces_validated_against_impl")
+		parts := c.GetAny("parts")
+		ex := c.GetAny("exhaustive")
+		c43.Run(c)
+		c.Set("states", st+c.Get("states"))
+		c.Set("transitions", tr+c.Get("transitions"))
+		c.Set("traces_validated_against_impl", rp+c.Get("traces_validated_against_impl"))
+		c.Set("parts_token_world", parts)
+		c.Set("parts_note", "'parts' lists the packet-forward world's parts, 'parts_token_world' the token world's")
+		if b, ok := ex.(bool); ok && !b {
+			c.Set("exhaustive", false)
+		}
+	}
 	c.Set("oracle", "every state, every chain, every denomination: TransferKeeper.GetTotalEscrowForDenom == reference (sum of amounts of accepted source-zone sends - refunds of those sends - releases by successfully acknowledged receives of returning tokens, kept in sdkmath.Int from the observed results); >= 0; <= sum of the bank balances of that denomination over all transfer escrow accounts of the chain; no entry for a denomination the reference never saw escrowed")
-	c.Assume("packet-forward-middleware escrow-to-escrow moves are not exercised (no forwarding memos in this alphabet)")
+	c.Assume("packet-forward refund moves are covered by running the packet-forward world (props/c43) under this check; replay of a violation found there: ./run C43 --replay <file>")
 }
